@@ -375,3 +375,5 @@ func init() {
 		},
 	}
 }
+
+func modelAddr(a uint64) model.Addr { return model.Addr(a) }
